@@ -7,6 +7,8 @@ level's modification expression mentions a parameter `q`, and a parameter called
 so the flat attribute shows in which scope the expression was resolved.  Expected flat model: recursive
 instantiation with outer-overrides-inner merging (vk/ref/flatten_ref.py).  z3 proves, for all values of all
 parameters, that each flat attribute expression equals the expected one (and the flat equations as in C07).
+Two further families vary WHICH attribute / sub-element each level modifies (levels-mixed, chain-multi): modifications merge per
+attribute, so different attributes of one element set at different levels must all survive, each from its outermost level.
 A spelling may be rejected (the property allows that); a program rejected in BOTH spellings, or a flat model
 that differs from the expected one, is a violation."""
 import itertools
@@ -33,17 +35,20 @@ def modval(attr, level_index):
 
 
 def build(levels, attr, dotted, shape="deep"):
-    """levels: set of level names carrying a modification of `attr`."""
-    tmods = {attr: N(5) if attr != "fixed" else N(True)} if "type" in levels and attr != "value" else {}
+    """levels: set of level names carrying a modification of `attr`; `attr` is one attribute name for all levels or
+    a dict level -> attribute (levels-mixed family: different attributes of the same variable at different levels)."""
+    at = dict(attr) if isinstance(attr, dict) else {l: attr for l in LEVELS}
+    any_value = any(at[l] == "value" for l in levels)
+    tmods = {at["type"]: N(5) if at["type"] != "fixed" else N(True)} if "type" in levels and at["type"] != "value" else {}
     T = Cls("T", "type", alias_of="Real", alias_mods=tmods)
-    xm = {attr: modval(attr, 1)} if "decl" in levels else {}
-    leaf = Cls("Leaf", comps=[Comp("x", "T", ["parameter"] if attr == "value" else [], mods={k: v for k, v in xm.items() if k != "value"}, value=xm.get("value")),
+    xm = {at["decl"]: modval(at["decl"], 1)} if "decl" in levels else {}
+    leaf = Cls("Leaf", comps=[Comp("x", "T", ["parameter"] if any_value else [], mods={k: v for k, v in xm.items() if k != "value"}, value=xm.get("value")),
                               Comp("q", "Real", ["parameter"], value=N(1))])
-    mid_m = {"x": {attr: modval(attr, 2)}} if "mid" in levels else {}
+    mid_m = {"x": {at["mid"]: modval(at["mid"], 2)}} if "mid" in levels else {}
     base = Cls("Base", comps=[Comp("lf", "Leaf", mods=mid_m), Comp("lf2", "Leaf"), Comp("q", "Real", ["parameter"], value=N(2))])
-    ext_m = {"lf": {"x": {attr: modval(attr, 3)}}} if "ext" in levels else {}
+    ext_m = {"lf": {"x": {at["ext"]: modval(at["ext"], 3)}}} if "ext" in levels else {}
     ext = Cls("Ext", extends=[("Base", ext_m)], comps=[Comp("r", "Real", ["parameter"], value=N(3))])
-    top_m = {"lf": {"x": {attr: modval(attr, 4)}}} if "top" in levels else {}
+    top_m = {"lf": {"x": {at["top"]: modval(at["top"], 4)}}} if "top" in levels else {}
     top = Cls("Top", comps=[Comp("e", "Ext", mods=top_m), Comp("q", "Real", ["parameter"], value=N(4))])
     for c in (leaf, base, ext, top):
         c.dotted = dotted
@@ -89,6 +94,97 @@ def other_shapes(tier):
             if mid_mod and not sys_mod:
                 out.append((f"same-short-name-direct[{attr},{'dotted' if dotted else 'nested'}]", Lib([lib, site]), "Site.Plant"))
     return out
+
+
+# ---------------------------------------------------------------- different attributes at different levels
+MIXED = {  # attribute per level, in LEVELS order (type, decl, mid, ext, top)
+    "rot0": ["start", "min", "max", "nominal", "fixed"],      # all distinct: every level's modification must survive
+    "alt": ["start", "min", "start", "min", "start"],         # two attributes interleaved: outermost of each
+    "val": ["min", "value", "start", "value", "max"],         # value and attributes interleaved
+    "rot2": ["max", "nominal", "fixed", "start", "min"],
+    "pairs": ["nominal", "max", "nominal", "nominal", "max"],
+}
+
+
+def mixed_family(tier):
+    """levels family with a DIFFERENT attribute of x at (some of) the levels: Modelica merges modifications per
+    attribute, so the flat x carries, for every attribute, the value of the outermost level that sets it."""
+    items = []
+    pats = ("rot0", "alt", "val") if tier == "quick" else tuple(MIXED)
+    for pat in pats:
+        for bits in itertools.product((0, 1), repeat=5):
+            levels = {l for l, b in zip(LEVELS, bits) if b}
+            if len(levels) < 2:
+                continue
+            at = dict(zip(LEVELS, MIXED[pat]))
+            if len({at[l] for l in levels}) < 2:
+                continue  # one attribute only: that is the levels family
+            tag = "".join(l[0] if l in levels else "-" for l in LEVELS)
+            items.append((f"levels-mixed[{pat},{tag}]", at, sorted(levels)))
+    return items
+
+
+# ------------------------------------- extends chains whose clauses modify the SAME element differently
+Y_OPTS = [None, ("min",), ("max",), ("nominal", "min")]                    # attributes of y set by one clause
+B_OPTS = [None, ("x", "max"), ("k", "value"), ("x", "start")]              # sub-element of b set by one clause
+
+
+def mv(attr, level):
+    """Modification expression that identifies attribute and level, in terms of the writing scope's q."""
+    if attr == "fixed":
+        return N(level % 2 == 0)
+    return ("+", V("q"), N(10 * (level + 1) + ATTRS_ALL.index(attr)))
+
+
+def chain_multi(ypat, bpat, dotted, direct):
+    """A <- A1(..) <- A2(..) [<- A3(..)], optionally an instance `A_n a(..)` in U.  ypat/bpat give, per level
+    (extends clause 1..n, then the enclosing component), which attributes of the inherited variable y and which
+    sub-element of the inherited component b that level modifies.  Every level also sets g on odd levels."""
+    n_ext = len(ypat) - 1
+
+    def mods(level):
+        m = {}
+        yo, bo = Y_OPTS[ypat[level - 1]], B_OPTS[bpat[level - 1]]
+        if yo:
+            m["y"] = {a: mv(a, level) for a in yo}
+        if bo:
+            m["b"] = {bo[0]: {bo[1]: mv(bo[1], level)}}
+        if level % 2:
+            m["g"] = {"value": mv("value", level)}
+        return m
+
+    bm = Cls("Bm", comps=[Comp("k", "Real", ["parameter"], value=N(1)), Comp("x", "Real", mods={"start": N(1), "min": N(-1)}), Comp("q", "Real", ["parameter"], value=N(7))])
+    a = Cls("A", comps=[Comp("g", "Real", ["parameter"], value=N(1)), Comp("q", "Real", ["parameter"], value=N(2)),
+                        Comp("y", "Real", mods={"start": N(1)}), Comp("b", "Bm", mods={"x": {"start": N(2)}})])
+    classes = [bm, a]
+    prev = "A"
+    for k in range(1, n_ext + 1):
+        classes.append(Cls(f"A{k}", extends=[(prev, mods(k))]))
+        prev = f"A{k}"
+    top = prev
+    if not direct:
+        classes.append(Cls("U", comps=[Comp("a", prev, mods=mods(n_ext + 1)), Comp("q", "Real", ["parameter"], value=N(9))]))
+        top = "U"
+    for c in classes:
+        c.dotted = dotted
+    return Lib(classes), top
+
+
+def multi_family(tier):
+    items = []
+    for n_ext in ((2,) if tier == "quick" else (2, 3)):
+        n = n_ext + 1
+        for ypat in itertools.product(range(4), repeat=n):
+            if n_ext == 3 and sum(1 for v in ypat if v) < 3:
+                continue  # the long chain only with at least three modifying levels
+            bpat = tuple((ypat[(i + 1) % n] + i) % 4 for i in range(n))
+            if sum(1 for v in ypat[:n_ext] if v) + sum(1 for v in bpat[:n_ext] if v) == 0:
+                continue  # no extends clause modifies anything
+            tag = "y=" + "".join(map(str, ypat)) + ",b=" + "".join(map(str, bpat))
+            items.append((f"chain-multi[{tag},inst]", ypat, bpat, False))
+            if ypat[-1] == 0 and bpat[-1] in (0, 2):
+                items.append((f"chain-multi[{tag},direct]", ypat, bpat, True))
+    return items
 
 
 def family(tier):
@@ -156,6 +252,15 @@ def work(item):
             _, cid, attr, levels = item
             run_pair(col, cid, lambda dotted: build(levels, attr, dotted))
             col.sample({"case": cid, "nested_text": build(levels, attr, False)[0].text()}, 1)
+        elif item[0] == "mixed":
+            _, cid, at, levels = item
+            run_pair(col, cid, lambda dotted: build(set(levels), at, dotted))
+            col.bump("programs_mixed_attributes")
+        elif item[0] == "multi":
+            _, cid, ypat, bpat, direct = item
+            run_pair(col, cid, lambda dotted: chain_multi(ypat, bpat, dotted, direct))
+            col.bump("programs_chain_multi")
+            col.sample({"case": cid, "nested_text": chain_multi(ypat, bpat, False, direct)[0].text()}, 1)
         else:
             _, cid, lib, top = item
             ev, ee = expected(lib, top)
@@ -166,17 +271,21 @@ def work(item):
     return col
 
 
+def all_items(tier):
+    return [("levels",) + it for it in family(tier)] + [("shape",) + it for it in other_shapes(tier) if it] + \
+           [("mixed",) + it for it in mixed_family(tier)] + [("multi",) + it for it in multi_family(tier)]
+
+
 def main():
     a = std_args(PROP)
     if a.replay:
         r = json.load(open(a.replay))
-        items = [("levels",) + it for it in family("thorough") if r["case"].startswith(it[0])] + \
-                [("shape",) + it for it in other_shapes("thorough") if r["case"].startswith(it[0])]
+        items = [it for it in all_items("thorough") if r["case"].startswith(it[1])]
         c = work(items[0]) if items else Collector()
         print(c.violations[:3])
         return 1 if c.violations else 0
     rep = Report(PROP, a.tier, "translation_validation", a.seed)
-    items = [("levels",) + it for it in family(a.tier)] + [("shape",) + it for it in other_shapes(a.tier) if it]
+    items = all_items(a.tier)
     for col in run_parallel(work, items, a.jobs):
         rep.merge(col)
     # canary: expecting the INNERMOST modification must be refuted
@@ -194,7 +303,12 @@ def main():
                                 "sub-components), modify_symbol / apply_symbol_modifications, flatten_component_refs (executed per program; attribute expressions -> z3)"]
     cov["bounds"] = ("all 2^5 subsets of {type definition, declaration, enclosing component, extends clause, component two levels up} x attribute {value, start, min} (thorough: + max, nominal, "
                      "fixed) x {nested, dotted} spelling, every modification expression in terms of the parameter q of its own scope; extends chains of three classes with all 8 competing "
-                     "modification subsets (instance and direct), two-level derived types, equal short class names in different packages; all parameter values unbounded reals")
+                     "modification subsets (instance and direct), two-level derived types, equal short class names in different packages; levels-mixed: the same five levels with a DIFFERENT "
+                     "attribute of x per level - attribute patterns {all distinct, two attributes interleaved, value and attributes interleaved} (thorough: + 2 more) x all level subsets of size >= 2 "
+                     "that set at least two attributes x both spellings (every attribute must come from the outermost level that sets it, none may be lost); chain-multi: inheritance chains "
+                     "A <- A1(..) <- A2(..) (thorough: also <- A3(..)), flattened directly or as a modified component, where every extends clause / the enclosing component modifies the same inherited "
+                     "variable y (none | min | max | nominal+min) and the same inherited component b (none | b.x.max | b.k | b.x.start) plus a parameter value, all 4^3 per-level combinations "
+                     "(thorough 4^4 with >= 3 modifying levels) x both spellings, declaration-level modifications underneath; all parameter values unbounded reals")
     cov["explanation"] = "per attribute: z3 unsat of (flat attribute expression != expected expression) over all parameter values"
     rep.assumptions += ["expected flat model from vk/ref/flatten_ref.py: declaration < enclosing component < ... outermost wins; extends-clause modifications override the base class's own; "
                         "expressions are resolved in the scope where they are written",
